@@ -37,6 +37,7 @@ declare -A DEST=( [C01-a]=tests/seed_demo.rs [C03-a]=tests/seed_c03_demo.rs [C05
  [C16-e]=crates/polytune-server-core/tests/c16_demo.rs [C19-e]=tests/seed_c19_demo.rs [C03-e]=tests/seed_c03e_demo.rs
  [C10-e]=MOD:src/mpc/seed_c10_demo.rs:src/mpc.rs:seed_c10_demo
  [C08-e]=tests/c08_demo.rs [C04-d]=tests/c04_kos_seed.rs [C02-e]=tests/seed_c02_demo.rs [C11-e]=tests/c11_demo.rs
+ [C18-e]=tests/c18_demo.rs [C20-e]=tests/c20_demo.rs [C07-e]=tests/c07e_demo.rs [C06-e]=tests/c06_demo.rs
  [C20-a]=MOD:src/transpose/seed_demo.rs:src/transpose.rs:seed_demo )
 names=${@:-$(ls -d /verif/seeded/*/ | xargs -n1 basename)}
 for s in $names; do
@@ -60,7 +61,7 @@ for s in $names; do
     esac
   }
   # (C20-b's demonstration drives the guarded verification wrappers)
-  if [ $s = C20-b ] || [ $s = C20-c ] || [ $s = C19-c ] || [ $s = C10-d ] || [ $s = C03-d ] || [ $s = C06-d ] || [ $s = C20-d ] || [ $s = C19-e ] || [ $s = C02-e ]; then DEMOFLAGS="--cfg polytune_verif --check-cfg cfg(polytune_verif)"; else DEMOFLAGS=""; fi
+  if [ $s = C20-b ] || [ $s = C20-c ] || [ $s = C19-c ] || [ $s = C10-d ] || [ $s = C03-d ] || [ $s = C06-d ] || [ $s = C20-d ] || [ $s = C19-e ] || [ $s = C02-e ] || [ $s = C20-e ]; then DEMOFLAGS="--cfg polytune_verif --check-cfg cfg(polytune_verif)"; else DEMOFLAGS=""; fi
   # with the change
   git apply $d/patch.diff || { echo "$s: PATCH DOES NOT APPLY" >> $LOG; continue; }
   if [ $server = 1 ]; then
